@@ -323,6 +323,14 @@ def _model(chk: Check, quick: bool) -> bool:
     return True
 
 
+def _run_one(case: tuple[list[Any], int]) -> list[dict[str, Any]]:
+    ast, ext = case
+    try:
+        return vloop.run(lambda: execute(ast, ext))  # type: ignore[no-any-return]
+    except vloop.VirtualDeadlock as exc:
+        return [dict(EVD, ev="deadlock", exc=str(exc)[:40])]
+
+
 def run(chk: Check) -> None:
     quick = chk.tier == "quick"
     rng = random.Random(chk.seed)
@@ -338,11 +346,9 @@ def run(chk: Check) -> None:
     for i in range(700 if quick else 12000):
         ast = gen_program(rng, max_depth=3 if i % 3 else 4)
         cases.append((ast, rng.choice([INF, INF, 0, 1, 2, 3, 4, 5, 6, 8])))
-    for ast, ext in cases:
-        try:
-            evs = vloop.run(lambda: execute(ast, ext))
-        except vloop.VirtualDeadlock as exc:
-            evs = [dict(EVD, ev="deadlock", exc=str(exc)[:40])]
+    from ..common import pmap
+
+    for (ast, ext), evs in zip(cases, pmap(_run_one, cases)):
         rec.append({"par": {"prog": flatten(ast), "ext": ext}, "events": evs, "ast": ast, "meta": f"ext={'none' if ext >= INF else ext} program: {ast_str(ast)}"})
     slim = [{"par": t["par"], "events": traces.uniform(t["events"], EVD)} for t in rec]
     res = traces.validate("CancelScopeTrace", slim, cfg_text=TRACE_CFG, parallel=12, chunk=400)
